@@ -29,7 +29,7 @@ from vf.props.common import harness_error, inconclusive, proved, violation
 ID = "C16"
 LEVEL = "model_checking"
 ITEM_BUDGET_S = {"quick": 300, "thorough": 900}
-QT = {"quick": 10000, "thorough": 60000}
+QT = {"quick": 10000, "thorough": 30000}
 _TIER = "quick"
 
 META = dict(
@@ -135,6 +135,10 @@ def objective_forms(n):
         ("sum(v[0:6:2])", ("vsum", ("slice", v, 0, 6, 2))), ("sum(v[0:6])", ("vsum", ("slice", v, 0, 6, None))),
         ("sum(A[0,0:2])", ("vsum", ("mrowpart", M, 0, (0, 2, None)))), ("sum(A[1:3,1])", ("vsum", ("mcolpart", M, 1, (1, 3, None)))),
         ("c@v[3:9:5]", ("lincomb", [1.0, 2.0], ("slice", v, 3, 9, 5))),
+        # variables that occur ONLY in an exponent / a denominator / under a function
+        ("sum(v)+2**y", ("bin", "+", ("vsum", v), ("bin", "**", ("num", 2.0), ("var", "y")))), ("x**y", ("bin", "**", X, ("var", "y"))),
+        ("1/y+exp(z)", ("bin", "+", ("bin", "/", ("num", 1.0), ("var", "y")), ("un", "exp", ("var", "z")))),
+        ("(sum(v))**x", ("bin", "**", ("vsum", ("slice", v, 0, 2, None)), X)),
         # sub-matrix views (symmetric: shared entries; plain) used as a whole
         ("sum(S[0:2,1:3])", ("msum", ("mslice", Sm, (0, 2, None), (1, 3, None)))), ("fro(S[0:2,1:3])", ("fro", ("mslice", Sm, (0, 2, None), (1, 3, None)))),
         ("sum(S[0:2,0:2])", ("msum", ("mslice", Sm, (0, 2, None), (0, 2, None)))), ("sum(S[::-1,:].T)", ("msum", ("mT", ("mslice", Sm, (None, None, -1), (None, None, None))))),
@@ -209,8 +213,20 @@ def problems(tier):
 def observe(model, val):
     p, b = LM.build_model(model, val)
     vs = p.variables
-    return dict(names=[v.name for v in vs], n=p.n_variables, bounds=p.get_bounds(), again=[v.name for v in p.variables],
-                domains=[v.domain for v in vs])
+    out = dict(names=[v.name for v in vs], n=p.n_variables, bounds=p.get_bounds(), again=[v.name for v in p.variables],
+               domains=[v.domain for v in vs])
+    # the same listing with the deep-tree (iterative) traversals forced from outside
+    from vf.props import c15
+    old = c15.set_thresholds(0)
+    try:
+        p2, _ = LM.build_model(model, val)
+        try:
+            out["names_iterative"] = [v.name for v in p2.variables]
+        except Exception as e:  # noqa: BLE001
+            out["names_iterative"] = e
+    finally:
+        c15.restore_thresholds(old)
+    return out
 
 
 def check_problem(model, planted=False):
@@ -244,6 +260,10 @@ def check_problem(model, planted=False):
                 res.append(violation(f"C16|order|{form}", f"{tag}: order {got[:6]}... is not the natural order {want_order[:6]}...", payload))
             else:
                 res.append(proved(f"{tag}: natural order"))
+        if isinstance(out["names_iterative"], Exception) or out["names_iterative"] != out["names"]:
+            res.append(violation(f"C16|iterative-listing|{form}", f"{tag}: with the deep-tree traversals the variables are {out['names_iterative']!r}, with the recursive ones {out['names'][:8]}", dict(payload, th0=True)))
+        else:
+            res.append(proved(f"{tag}: deep-tree traversal lists the same variables"))
         if out["n"] != len(out["names"]) or out["again"] != out["names"]:
             res.append(violation(f"C16|n_variables|{form}", f"{tag}: n_variables / repeated read inconsistent", payload))
         claims, bad = [], None
@@ -345,6 +365,8 @@ def replay(payload):
         return True, f"variables {sorted(set(got) - want)} extra, {sorted(want - set(got))} missing"
     if got != sorted(want, key=lambda n_: (natural_key(n_), n_)):
         return True, f"order {got[:8]} is not the natural order {sorted(want, key=natural_key)[:8]}"
+    if payload.get("th0") and (isinstance(out["names_iterative"], Exception) or out["names_iterative"] != got):
+        return True, f"deep-tree traversal lists {out['names_iterative']!r}, recursive traversal {got}"
     for nme, (glb, gub) in zip(out["names"], out["bounds"]):
         lb, ub = LM.declared_bounds(model, nme, val)
         if (glb is None) != (lb is None) or (gub is None) != (ub is None) or (lb is not None and abs(glb - lb) > 1e-12) or (ub is not None and abs(gub - ub) > 1e-12):
